@@ -100,6 +100,12 @@ func (m *MatchHTTP) Match(cx *layer4.Connection) (bool, error) {
 		bufReader := bufio.NewReaderSize(cx, len(data))
 		req, err = http.ReadRequest(bufReader)
 		if err != nil {
+			// A request head cut in the middle of a line is reported as malformed rather than incomplete.
+			// Until the blank line that ends the head has arrived, ask for more data instead of failing.
+			if !bytes.Contains(data, []byte("\n\n")) && !bytes.Contains(data, []byte("\n\r\n")) &&
+				len(data) < layer4.MaxMatchingBytes {
+				return false, layer4.ErrConsumedAllPrefetchedBytes
+			}
 			return false, err
 		}
 
